@@ -33,6 +33,25 @@ SIG_DOT = 'C19/segment-lost/empty-or-dot-name'
 SIG_ITER = 'C19/escape/TypeError/iterating-bodyless-2xx'
 
 
+class Dedup:
+    """Report wrapper: at most 2 violations per structural signature reach the (capped) report, so
+    that many instances of a known finding cannot crowd out a new violation."""
+
+    def __init__(self, rep):
+        self._rep = rep
+        self._seen = {}
+
+    def __getattr__(self, k):
+        return getattr(self._rep, k)
+
+    def violation(self, signature, what, replay):
+        n = self._seen.get(signature, 0)
+        self._seen[signature] = n + 1
+        self._rep.count('violations_by_signature', signature)
+        if n < 2:
+            self._rep.violation(signature, what, replay)
+
+
 def hx(s):
     b = s.encode('utf-8') if isinstance(s, str) else s
     return b.hex() if b else '-'
@@ -644,18 +663,19 @@ def kernel_lines(rng, n, lines, expect, meta):
         meta.append({'join': [bp, rel]})
 
 
-def check(rep):
+def check(report):
+    rep = Dedup(report)
     rng = random.Random(common.seed() * 7919 + 19)
     thorough = rep.tier == 'thorough'
     per_op = 2000 if thorough else 50
-    rep.rule = ('every public Management API operation (all rows of the documented table, every branch: show_all, passive, '
+    report.rule = ('every public Management API operation (all rows of the documented table, every branch: show_all, passive, '
                 'bulk delete, node/no node, paginated or not) x %d argument assignments per row (names drawn from a pool with '
                 "'/', '?', '#', '%%', space, ';', control and non-ASCII characters incl. astral planes, %%-escapes, dot segments, "
                 'empty; random JSON arguments; None/omitted optionals) x 5 API base URLs x 15 scripted server behaviours (2xx '
                 'documented JSON / null / empty / non-JSON / error object, 4xx, 5xx, boundary statuses, 10 transport exception '
                 'classes); distinct = (operation, arguments, response kind); non-trivial = a name with a reserved or non-ASCII '
                 'character, or a JSON payload' % per_op)
-    rep.assumptions = [
+    report.assumptions = [
         'names are Python str without lone surrogates (quote() raises UnicodeEncodeError on those); arguments are JSON-serialisable',
         'urllib.parse.quote/urljoin and the URL preparation of requests 2.34/urllib3 2.x are re-implemented in Lean for the fragment '
         'used (relative path of pchar characters with canonical escapes) and tied by co-execution, not verified',
@@ -700,7 +720,7 @@ def check(rep):
 
     if rep.build.driver_ok:
         got = common.run_driver(lines)
-        rep.corr_cases = len(lines)
+        report.corr_cases = len(lines)
         for l, g, e, m in zip(lines, got, expect, meta):
             if g != e:
                 if g.endswith('error:unmodelled') or g == 'unmodelled':
